@@ -338,6 +338,10 @@ func Check(env *Env, prop Property, tier string, verifSeed uint64, workers int) 
 			if len(res.Violations) >= 3 {
 				shrinkBudget = 0 // enough minimised reports; the rest are reported as found
 			}
+			noMinimise := os.Getenv("VERIF_MINIMISE") == "0" // regression runs over stored changes only ask caught / missed
+			if noMinimise {
+				shrinkBudget = 0
+			}
 			shrinkDeadline := time.Now().Add(60 * time.Second)
 			min, evals := tape.Shrink(f.tape, func(c []uint64) bool {
 				if time.Now().After(shrinkDeadline) {
@@ -364,6 +368,9 @@ func Check(env *Env, prop Property, tier string, verifSeed uint64, workers int) 
 				len(f.tape), len(bestTape), evals, len(f.data), len(bestData)))
 			if rf, ok := prop.(Refiner); ok && len(res.Violations) < 3 {
 				refineDeadline := time.Now().Add(5 * time.Minute)
+				if noMinimise {
+					refineDeadline = time.Now()
+				}
 				nd, notes := rf.Refine(env, bestData, class, func(c json.RawMessage) bool {
 					if time.Now().After(refineDeadline) {
 						return false
